@@ -8,7 +8,7 @@ Follows, at the granularity of the hook events compiled into them,
 * `threading_base/src/global_activity_count.cpp` (`gac.inc`, `gac.dec`) and the places that move
   a unit of activity: the schedulers' `create_thread` (increment *first*, then either a thread
   object is created — `task.new` / `task.rebind` — or a task description is staged —
-  `task.stage` — and converted later by a worker in `add_new` — `task.unstage` followed by
+  `newq.push` — and converted later by a worker in `add_new` — `newq.pop` followed by
   `task.new`/`task.rebind`) and `destroy_thread` (`task.destroy` *first*, decrement afterwards);
 * `thread_manager::wait` (`gac.sample`: the predicate's load of the counter, compared with
   `get_self_ptr() != nullptr ? 1 : 0`);
